@@ -17,3 +17,4 @@ def load_all():
     from . import construct  # noqa
     from . import fixedarray  # noqa
     from . import render  # noqa
+    from . import unit_system  # noqa
